@@ -17,8 +17,15 @@ CHECK = Check(
           "CopyTo's source (destination *T zero / **T emptied) grouped and single; Reset and CopyTo's destination by value "
           "(must-be-pointer, dump unchanged; source in each of the three forms) and through *T / **T; per unit: every "
           "operation with a foreign argument in every argument position (demand: a refusal the signature can express, dump of "
-          "all arguments unchanged) and with a typed-nil *T, a **T to nil, a nil **T and the nil interface; distinct = distinct "
-          "input text, all non-trivial."),
+          "all arguments unchanged) and with a typed-nil *T, a **T to nil, a nil **T and the nil interface; per value with a "
+          "non-empty collection (and the most populated value with long string keys): two HISTORIES of reads on ONE object with "
+          "ONE caller-owned key buffer handed to every Loop - (a) every collection of the object looped forwards and backwards "
+          "(keys wanted), then Get and GetTo into the collections; (b) Loop over a collection, Loop with the same buffer over "
+          "ANOTHER object (a partner unit whose keys are rendered as index / signed / unsigned / float, or a second object of "
+          "the same type), the first Loop again, Get - each grouped (three forms + every step alone on fresh objects; "
+          "observation: per step and form, answer inside the history = answer alone, every object of the history dumps as "
+          "before the first step and every map key is still found by a lookup) and once in one form against the model's "
+          "answers (Model/ApiSeq.run); distinct = distinct input text, all non-trivial."),
     assumptions=["'never modifies the value it reads' is observed as: the canonical dump (no capacities, no addresses) of every "
                  "argument is the same before and after every call; writes into spare capacity or that restore the old "
                  "content would not be seen",
@@ -26,7 +33,11 @@ CHECK = Check(
                  "liveness bit is predicted per form by the model",
                  "the model's purity statement is structural (Model/Api.exec returns the argument for every read call): that "
                  "the generated code has no store through a read argument is established by the stream, not by a theorem",
-                 "Set by value (writes into a copy; nested maps and slices are shared) is outside the property and not run"],
+                 "Set by value (writes into a copy; nested maps and slices are shared) is outside the property and not run",
+                 "histories: strings of the harness-built objects are private heap copies (a store into a key is an observable "
+                 "change, not a fault); the caller's buffers are not part of the model's state (the Loop models never read the "
+                 "key buffer): that the code neither depends on old buffer content nor lets a buffer share memory with an "
+                 "object is observed by the history cases, for the histories enumerated"],
 )
 
 MANIFEST = {
@@ -38,8 +49,11 @@ MANIFEST = {
              "object); read calls return the argument unchanged and a changed argument implies Reset/Set/CopyTo-destination; "
              "Reset and CopyTo's destination by value give the must-be-pointer error and change nothing; a foreign argument is "
              "refused per operation (no effect / unsupported-type error / false) in every argument position; nil pointer "
-             "arguments are handled like the nil interface and no header panics (after four fix: commits). Correspondence: every "
-             "grouped case runs the real generated methods in the three forms and compares answers and argument dumps."),
+             "arguments are handled like the nil interface and no header panics (after four fix: commits); a history of read "
+             "calls of any length over any store of objects leaves every object as it was, every step answers what the call "
+             "answers alone, and the answers coincide in the three forms. Correspondence: every "
+             "grouped case runs the real generated methods in the three forms and compares answers and argument dumps; history "
+             "cases run sequences of reads on one object with one shared key buffer."),
     "note": ("Trusted: Coq kernel, extraction, Go harness (reflection value builder, proxy inspector, canonical dumps), Go compiler. "
              "The models take the value tree, so purity of reads is structural in the model; the stream's before/after dumps carry "
              "that clause for the real code. No axioms."),
